@@ -10,6 +10,8 @@
             ToFloat(a)       conversion to double: one of the two neighbouring doubles (no state change)
             Step("neg", a, a, d)   d := -a;   compound assignment d op= a is the Step d := d op a
             Step("mov", a, a, d)   d := a    (plain assignment: the conversion between two register types on its own)
+            Step(c, a, b, d), c in CompositeOps   d := one expression with two operators, e.g. -(a * b) or (a + b) * a: the elastic
+                             intermediate is never converted to a declared type (exact arithmetic, one final conversion)
             Step(op, a, b, d)  d := a op b   -- the binary operator on the operands' types (elastic widening: exact
                              for +,-,*; the quotient rounded by the rounding mode for /) followed by conversion to d's
                              declared type: rounding conversion by d's rounding mode, then the overflow check of d's
@@ -23,18 +25,34 @@ EXTENDS SemRounding
 TDig(t) == t.digits
 TExp(t) == ExpOf(t)
 TMaxRaw(t) == Sub(Pow2(TDig(t)), One)
+TMinRaw(t) == IF t.sg = 1 THEN Neg(TMaxRaw(t)) ELSE Zero        \* unsigned Narrowest: [0, 2^digits - 1]
+InRegRange(x, t) == Le(TMinRaw(t), x) /\ Le(x, TMaxRaw(t))
 
-\* exact result of the operator before conversion: <<raw, exponent>>
+\* exact arithmetic on values <<raw, exponent>> (what the elastic layers promise for +, -, * and unary minus)
+VAdd(x, y) == LET em == MinI(x[2], y[2]) IN <<Add(Shl(x[1], x[2] - em), Shl(y[1], y[2] - em)), em>>
+VSub(x, y) == LET em == MinI(x[2], y[2]) IN <<Sub(Shl(x[1], x[2] - em), Shl(y[1], y[2] - em)), em>>
+VMul(x, y) == <<Mul(x[1], y[1]), x[2] + y[2]>>
+VNeg(x) == <<Neg(x[1]), x[2]>>
+\* composite expressions (round 9): one C++ expression with an elastic intermediate that is never converted to a declared type
+\*   neg_add -(a + b)   neg_sub -(a - b)   neg_mul -(a * b)   mul_add (a * b) + a   mul_sub (a * b) - a   add_mul (a + b) * a   sub_mul (a - b) * b
+CompositeOps == {"neg_add", "neg_sub", "neg_mul", "mul_add", "mul_sub", "add_mul", "sub_mul"}
+\* exact result of the operator / expression before conversion: <<raw, exponent>>
 OpResultValue(op, ta, ra, tb, rb) ==
-    CASE op \in {"add", "sub"} ->
-           LET em == MinI(TExp(ta), TExp(tb))
-               x == Shl(ra, TExp(ta) - em)  y == Shl(rb, TExp(tb) - em)
-           IN <<IF op = "add" THEN Add(x, y) ELSE Sub(x, y), em>>
-      [] op = "mul" -> <<Mul(ra, rb), TExp(ta) + TExp(tb)>>
+    LET Av == <<ra, TExp(ta)>>  Bv == <<rb, TExp(tb)>> IN
+    CASE op = "add" -> VAdd(Av, Bv)
+      [] op = "sub" -> VSub(Av, Bv)
+      [] op = "mul" -> VMul(Av, Bv)
       [] op = "div" -> <<RoundQ(ra, rb, RoundingOf(ta)), TExp(ta) - TExp(tb)>>
-      [] op = "neg" -> <<Neg(ra), TExp(ta)>>                       \* unary minus (b is ignored)
-      [] op = "mov" -> <<ra, TExp(ta)>>                            \* plain assignment d := a (b is ignored)
+      [] op = "neg" -> VNeg(Av)                                     \* unary minus (b is ignored)
+      [] op = "mov" -> Av                                           \* plain assignment d := a (b is ignored)
       [] op = "mod" -> <<TruncRem(ra, rb), TExp(ta)>>             \* remainder of the representations, at a's exponent
+      [] op = "neg_add" -> VNeg(VAdd(Av, Bv))
+      [] op = "neg_sub" -> VNeg(VSub(Av, Bv))
+      [] op = "neg_mul" -> VNeg(VMul(Av, Bv))
+      [] op = "mul_add" -> VAdd(VMul(Av, Bv), Av)
+      [] op = "mul_sub" -> VSub(VMul(Av, Bv), Av)
+      [] op = "add_mul" -> VMul(VAdd(Av, Bv), Av)
+      [] op = "sub_mul" -> VMul(VSub(Av, Bv), Bv)
 
 \* order of the values of two registers: -1, 0, 1
 CmpValue(ta, ra, tb, rb) ==
@@ -48,7 +66,7 @@ ConvertTo(val, td) ==
     LET sh == val[2] - TExp(td)
         r == IF sh >= 0 THEN Shl(val[1], sh) ELSE RoundQ(val[1], Pow2(-sh), RoundingOf(td))
     IN IF Gt(r, TMaxRaw(td)) THEN [k |-> "pos", v |-> TMaxRaw(td)]
-       ELSE IF Lt(r, Neg(TMaxRaw(td))) THEN [k |-> "neg", v |-> Neg(TMaxRaw(td))]
+       ELSE IF Lt(r, TMinRaw(td)) THEN [k |-> "neg", v |-> TMinRaw(td)]
        ELSE [k |-> "val", v |-> r]
 
 \* what storing the exact value `val` (<<raw, exponent>>) into a register of type td must look like: expected
@@ -72,13 +90,19 @@ StepOK(op, ta, ra, tb, rb, td, before, after, out) ==
               [] OTHER -> TRUE       \* native / undefined tags: no promise once the result is out of range
 \* --- deviation classes inherited from the layers below (known findings of C05 / C08 / C09), as predicates ---
 \* digits of the operator's (elastic) result type
+\* digit arithmetic on <<digits, exponent>>
+DgAdd(x, y) == LET em == MinI(x[2], y[2]) IN <<MaxI2(x[1] + (x[2] - em), y[1] + (y[2] - em)) + 1, em>>
+DgMul(x, y) == <<x[1] + y[1], x[2] + y[2]>>
 TmpDigits(op, ta, tb) ==
-    CASE op \in {"add", "sub"} -> LET em == MinI(TExp(ta), TExp(tb))
-                                  IN MaxI2(TDig(ta) + (TExp(ta) - em), TDig(tb) + (TExp(tb) - em)) + 1
-      [] op = "mul" -> TDig(ta) + TDig(tb)
+    LET Ad == <<TDig(ta), TExp(ta)>>  Bd == <<TDig(tb), TExp(tb)>> IN
+    CASE op \in {"add", "sub", "neg_add", "neg_sub"} -> DgAdd(Ad, Bd)[1]
+      [] op \in {"mul", "neg_mul"} -> TDig(ta) + TDig(tb)
       [] op = "div" -> TDig(ta)
       [] op \in {"neg", "mov"} -> TDig(ta)
       [] op = "mod" -> MinI(TDig(ta), TDig(tb))
+      [] op \in {"mul_add", "mul_sub"} -> DgAdd(DgMul(Ad, Bd), Ad)[1]
+      [] op = "add_mul" -> DgMul(DgAdd(Ad, Bd), Ad)[1]
+      [] op = "sub_mul" -> DgMul(DgAdd(Ad, Bd), Bd)[1]
 StorageDigits(t) == TDigits(AsIntT(InnerT(t)))
 \* elastic / casts both operands to the dividend-sized representation (ELASTIC-DIVMOD-NARROWS-OPERAND)
 DivOperandNarrowed(op, ta, ra, tb, rb) == op = "div" /\ BitLen(rb) > MaxI2(TDig(ta), StorageDigits(ta))
